@@ -77,7 +77,7 @@ _Z = "i1 == 0 and j1 == 0 and f1 == 0 and g1 == 0 and n1 == False and m1 == Fals
 
 @harness("C09", args="shape: int, s1: str, s2: str, i1: int, f1: int, n1: bool, t1: str, t2: str, j1: int, g1: int, m1: bool",
          pre=["0 <= shape <= 4", "_plain(s1) and _plain(s2) and _plain(t1) and _plain(t2)"],
-         tiers={"quick": {"timeout": 170, "pre": ["len(s1) <= 3 and len(s2) <= 2 and len(t1) <= 3 and len(t2) <= 2"],
+         tiers={"quick": {"timeout": 330, "pre": ["len(s1) <= 3 and len(s2) <= 2 and len(t1) <= 3 and len(t2) <= 2"],
                           "parts": [("shape0", "shape == 0 and " + _Z),
                                     ("shape1", "shape == 1 and len(s2) == 0 and len(t2) == 0 and 0 <= i1 <= 3 and 0 <= j1 <= 3 and f1 == 0 and g1 == 0 and n1 == False and m1 == False"),
                                     ("shape2a", "shape == 2 and n1 == False and m1 == False and len(s1) <= 2 and len(t1) <= 2 and i1 == 0 and j1 == 0 and f1 == 0 and g1 == 0"),
